@@ -849,67 +849,232 @@ fn stream_witnesses(rng: &mut SplitMix64, img: &mut Img, out: &mut dyn Write) {
     }
 }
 
-/// directories with unique, plainly named short entries: every entry's slot range through `Dir::remove`
+/// a directory with unique, plainly named short entries (`Fnnnnnnn`), complete / broken / orphan runs, deleted slots, labels
+fn plain_dir(rng: &mut SplitMix64) -> Vec<Slot> {
+    let target = rng.range(1, 24) as usize;
+    let mut slots: Vec<Slot> = Vec::new();
+    let mut serial = 0_u32;
+    while slots.len() < target {
+        serial += 1;
+        let mut name = *b"F0000000   ";
+        let digits = format!("{:07}", serial);
+        name[1..8].copy_from_slice(digits.as_bytes());
+        let chk = sfn_chk(&name);
+        let units13 = |rng: &mut SplitMix64| {
+            let mut u = [0_u16; 13];
+            for x in &mut u {
+                *x = *rng.pick(&[0x78_u16, 0x79, 0x7A, 0x78, 0x79, 0x7A, 0, 0xFFFF]);
+            }
+            u
+        };
+        match rng.below(10) {
+            0..=3 => {
+                let len = rng.range(1, 40) as usize;
+                let units: Vec<u16> = (0..len).map(|_| *rng.pick(&[0x78_u16, 0x79, 0x7A])).collect();
+                let mut run = gen_run(&units, chk);
+                match rng.below(8) {
+                    0 => {
+                        let i = rng.below(run.len() as u64) as usize;
+                        run[i][13] ^= 0x10;
+                    }
+                    1 => {
+                        let i = rng.below(run.len() as u64) as usize;
+                        run[i][0] = *rng.pick(&[0x41_u8, 0x01, 0x55, 0x42]);
+                    }
+                    2 => {
+                        let i = rng.below(run.len() as u64) as usize;
+                        run[i][0] = 0xE5;
+                    }
+                    _ => {}
+                }
+                slots.extend_from_slice(&run);
+                slots.push(sfn_slot(&name, 0x20));
+            }
+            4..=5 => {
+                let k = rng.range(1, 3) as usize;
+                for _ in 0..k {
+                    let order = *rng.pick(&[0x41_u8, 0x42, 0x01, 0x02, 0x43, 0x55]);
+                    slots.push(lfn_slot(order, chk, &units13(rng)));
+                }
+                slots.push(sfn_slot(&name, 0x20));
+            }
+            6 => {
+                let mut s = sfn_slot(&name, 0x20);
+                s[0] = 0xE5;
+                slots.push(s);
+            }
+            7 => slots.push(sfn_slot(&name, 0x08)),
+            _ => slots.push(sfn_slot(&name, 0x20)),
+        }
+    }
+    slots
+}
+
+/// every entry's slot range through `Dir::remove`
 fn stream_range(tier: Tier, rng: &mut SplitMix64, img: &mut Img, out: &mut dyn Write) {
     let n = tier.pick(400, 10_000);
     for _ in 0..n {
-        let target = rng.range(1, 24) as usize;
-        let mut slots: Vec<Slot> = Vec::new();
-        let mut serial = 0_u32;
-        while slots.len() < target {
-            serial += 1;
-            let mut name = *b"F0000000   ";
-            let digits = format!("{:07}", serial);
-            name[1..8].copy_from_slice(digits.as_bytes());
-            let chk = sfn_chk(&name);
-            let units13 = |rng: &mut SplitMix64| {
-                let mut u = [0_u16; 13];
-                for x in &mut u {
-                    *x = *rng.pick(&[0x78_u16, 0x79, 0x7A, 0x78, 0x79, 0x7A, 0, 0xFFFF]);
-                }
-                u
-            };
-            match rng.below(10) {
-                0..=3 => {
-                    let len = rng.range(1, 40) as usize;
-                    let units: Vec<u16> = (0..len).map(|_| *rng.pick(&[0x78_u16, 0x79, 0x7A])).collect();
-                    let mut run = gen_run(&units, chk);
-                    match rng.below(8) {
-                        0 => {
-                            let i = rng.below(run.len() as u64) as usize;
-                            run[i][13] ^= 0x10;
-                        }
-                        1 => {
-                            let i = rng.below(run.len() as u64) as usize;
-                            run[i][0] = *rng.pick(&[0x41_u8, 0x01, 0x55, 0x42]);
-                        }
-                        2 => {
-                            let i = rng.below(run.len() as u64) as usize;
-                            run[i][0] = 0xE5;
-                        }
-                        _ => {}
-                    }
-                    slots.extend_from_slice(&run);
-                    slots.push(sfn_slot(&name, 0x20));
-                }
-                4..=5 => {
-                    let k = rng.range(1, 3) as usize;
-                    for _ in 0..k {
-                        let order = *rng.pick(&[0x41_u8, 0x42, 0x01, 0x02, 0x43, 0x55]);
-                        slots.push(lfn_slot(order, chk, &units13(rng)));
-                    }
-                    slots.push(sfn_slot(&name, 0x20));
-                }
-                6 => {
-                    let mut s = sfn_slot(&name, 0x20);
-                    s[0] = 0xE5;
-                    slots.push(s);
-                }
-                7 => slots.push(sfn_slot(&name, 0x08)),
-                _ => slots.push(sfn_slot(&name, 0x20)),
+        let slots = plain_dir(rng);
+        emit_range(out, img, &slots);
+    }
+}
+
+/// all slots of the directory's allocated space after an operation: the root region, or the cluster chain of `D`
+fn read_back(data: &[u8], img: &Img, sub: bool) -> Vec<Slot> {
+    let mut v = Vec::new();
+    if !sub {
+        for i in 0..ROOT_ENTRIES {
+            let o = img.root_off + 32 * i;
+            let mut s: Slot = [0; 32];
+            s.copy_from_slice(&data[o..o + 32]);
+            v.push(s);
+        }
+        return v;
+    }
+    let get12 = |c: usize| -> usize {
+        let o = img.fat_off + c + c / 2;
+        let w = usize::from(data[o]) | (usize::from(data[o + 1]) << 8);
+        if c % 2 == 0 {
+            w & 0xFFF
+        } else {
+            w >> 4
+        }
+    };
+    let mut c = 2;
+    let mut guard = 0;
+    while (2..0xFF8).contains(&c) && guard < 64 {
+        for i in 0..SECTOR / 32 {
+            let o = img.data_off + (c - 2) * SECTOR + 32 * i;
+            let mut s: Slot = [0; 32];
+            s.copy_from_slice(&data[o..o + 32]);
+            v.push(s);
+        }
+        c = get12(c);
+        guard += 1;
+    }
+    v
+}
+
+/// `create_file(name)` / `remove(name)` on planted directories: the slots of the whole directory before and after go
+/// into the probe line; the model answers `ok` iff `after = writeEntry before …` resp. `deleteRange before …`
+/// (`DirSlots.checkCreate` / `checkDelete`)
+fn stream_dirops(tier: Tier, rng: &mut SplitMix64, img: &mut Img, out: &mut dyn Write) {
+    let n = tier.pick(600, 12_000);
+    for k in 0..n {
+        let mut slots = plain_dir(rng);
+        let sub = k % 2 == 1;
+        // sometimes fill the allocated space exactly / leave a trailing deleted run before the end marker
+        if rng.chance(1, 4) {
+            let mut d = sfn_slot(b"ZZZZZZZZ   ", 0x20);
+            d[0] = 0xE5;
+            for _ in 0..rng.range(1, 3) {
+                slots.push(d);
             }
         }
-        emit_range(out, img, &slots);
+        if rng.chance(1, 6) {
+            while slots.len() % 16 != 0 {
+                let mut d = sfn_slot(b"YYYYYYYY   ", 0x20);
+                if rng.chance(1, 2) {
+                    d[0] = 0xE5;
+                } else {
+                    let digits = format!("{:07}", 9_000_000 + slots.len());
+                    d[1..8].copy_from_slice(digits.as_bytes());
+                }
+                slots.push(d);
+            }
+        }
+        // undefined attribute bits 6/7 on some slots: the delete loop writes them back masked
+        for s in slots.iter_mut() {
+            if rng.chance(1, 10) {
+                s[11] |= *rng.pick(&[0x40_u8, 0x80, 0xC0]);
+            }
+        }
+        // a (nearly) full fixed root: the creating call must fail only when there is really no room
+        if !sub && rng.chance(1, 8) {
+            let keep = ROOT_ENTRIES - rng.below(4) as usize;
+            while slots.len() < keep {
+                let mut d = sfn_slot(b"X0000000   ", 0x20);
+                let digits = format!("{:07}", 8_000_000 + slots.len());
+                d[1..8].copy_from_slice(digits.as_bytes());
+                slots.push(d);
+            }
+        }
+        if sub {
+            img.plant_sub(&slots);
+        } else {
+            img.plant_root(&slots);
+        }
+        let before = read_back(&img.data, img, sub);
+        if k % 3 != 0 {
+            // create
+            let len = match rng.below(5) {
+                0 => *rng.pick(&[1_usize, 12, 13, 14, 26, 27]),
+                _ => rng.range(1, 45) as usize,
+            };
+            let name: String = if rng.chance(1, 5) {
+                format!("NEW{:04}.TXT", k % 10000)
+            } else {
+                (0..len).map(|i| if i % 7 == 3 { 'é' } else { (b'g' + ((i + k) % 13) as u8) as char }).collect()
+            };
+            let mut copy = img.data.clone();
+            let r = catch(|| {
+                let fs = FileSystem::new(Cursor::new(&mut copy[..]), FsOptions::new()).map_err(|e| fatfs::verif::error_code(&e))?;
+                let r = (|| {
+                    let root = fs.root_dir();
+                    let dir = if sub { root.open_dir("D").map_err(|e| fatfs::verif::error_code(&e))? } else { root.clone() };
+                    dir.create_file(&name).map(|_| ()).map_err(|e| fatfs::verif::error_code(&e))
+                })();
+                drop(fs);
+                r
+            });
+            let units: Vec<u16> = name.encode_utf16().collect();
+            match r {
+                None => writeln!(out, "P lfn.create {} {} {} {} - => PANIC", alloc_flag(), if sub { "sub" } else { "root" }, slots_arg(&before), hex_units(&units)).unwrap(),
+                Some(Err(c)) => {
+                    // only a full fixed root may fail; the model checks that there is really no room
+                    writeln!(out, "P lfn.create {} {} {} {} - => ERR {}", alloc_flag(), if sub { "sub" } else { "root" }, slots_arg(&before), hex_units(&units), c).unwrap()
+                }
+                Some(Ok(())) => {
+                    let after = read_back(&copy, img, sub);
+                    writeln!(out, "P lfn.create {} {} {} {} {} => ok", alloc_flag(), if sub { "sub" } else { "root" }, slots_arg(&before), hex_units(&units), slots_arg(&after)).unwrap()
+                }
+            }
+        } else {
+            // remove the j-th listed entry by its (unique) short name
+            let names: Vec<Vec<u8>> = {
+                let fs = FileSystem::new(Cursor::new(&mut img.data[..]), FsOptions::new()).unwrap();
+                let root = fs.root_dir();
+                let dir = if sub { root.open_dir("D").unwrap() } else { root.clone() };
+                let v: Vec<Vec<u8>> = dir.iter().filter_map(|r| r.ok()).map(|e| e.short_file_name_as_bytes().to_vec()).collect();
+                drop(dir);
+                drop(root);
+                v
+            };
+            if names.is_empty() {
+                continue;
+            }
+            let j = rng.below(names.len() as u64) as usize;
+            let name = String::from_utf8_lossy(&names[j]).to_string();
+            let mut copy = img.data.clone();
+            let r = catch(|| {
+                let fs = FileSystem::new(Cursor::new(&mut copy[..]), FsOptions::new()).map_err(|e| fatfs::verif::error_code(&e))?;
+                let r = (|| {
+                    let root = fs.root_dir();
+                    let dir = if sub { root.open_dir("D").map_err(|e| fatfs::verif::error_code(&e))? } else { root.clone() };
+                    dir.remove(&name).map_err(|e| fatfs::verif::error_code(&e))
+                })();
+                drop(fs);
+                r
+            });
+            match r {
+                None => writeln!(out, "P lfn.remove {} {} {} {} - => PANIC", alloc_flag(), if sub { "sub" } else { "root" }, slots_arg(&before), j).unwrap(),
+                Some(Err(c)) => writeln!(out, "P lfn.remove {} {} {} {} - => ERR {}", alloc_flag(), if sub { "sub" } else { "root" }, slots_arg(&before), j, c).unwrap(),
+                Some(Ok(())) => {
+                    let after = read_back(&copy, img, sub);
+                    writeln!(out, "P lfn.remove {} {} {} {} {} => ok", alloc_flag(), if sub { "sub" } else { "root" }, slots_arg(&before), j, slots_arg(&after)).unwrap()
+                }
+            }
+        }
     }
 }
 
@@ -922,4 +1087,5 @@ pub fn run(tier: Tier, seed: u64, out: &mut dyn Write) {
     stream_byte_sweep(tier, &mut img, out);
     stream_soup(tier, &mut rng.fork(), &mut img, out);
     stream_range(tier, &mut rng.fork(), &mut img, out);
+    stream_dirops(tier, &mut rng.fork(), &mut img, out);
 }
